@@ -19,7 +19,7 @@ MACROS = {
     # (unambiguous: takes as many digits and the white space if there is any,
     # so that a failing match cannot be retried in exponentially many ways)
     'unicode': r'\\(?:[0-9A-Fa-f]{6}|[0-9A-Fa-f]{1,5}(?![0-9A-Fa-f]))'
-    r'(?:{nl}|{s}|(?![\n\r\f\t\x20]))',
+    r'(?:\r\n|\r(?!\n)|[\n\f\t\x20]|(?![\n\r\f\t\x20]))',
     # 'escape': r'{unicode}|\\[ -~\200-\777]',
     'escape': r'{unicode}|\\[^\n\r\f0-9a-f]',
     'nmstart': r'[_a-zA-Z]|{nonascii}|{escape}',
